@@ -4,8 +4,8 @@ package main
 
 import (
 	"fmt"
-	"os"
 	"go/types"
+	"os"
 	"runtime"
 	"runtime/debug"
 	"sort"
@@ -221,7 +221,9 @@ func indexTerms(t *Term, out map[string]*Term, depth int) {
 	}
 }
 
-func hasQuant(t *Term) bool { return strings.Contains(t.String(), "(forall ") || strings.Contains(t.String(), "(exists ") }
+func hasQuant(t *Term) bool {
+	return strings.Contains(t.String(), "(forall ") || strings.Contains(t.String(), "(exists ")
+}
 
 // BuildQuery renders the obligation. With qf set, quantified assumptions are replaced by
 // their instances at the skolem constants and index terms of the goal (sound: dropping an
